@@ -14,6 +14,50 @@ import (
 func init() {
 	streams["c16"] = c16Stream
 	streams["c16-sweep"] = c16Sweep
+	streams["c16-oracle"] = c16Oracle
+}
+
+// c16Oracle: property-level search on a stratified sample: the real functions
+// against encoding/binary little-endian, both directions. One line per failure.
+func c16Oracle(dir string, seed int64, tier string) {
+	o := hx.Open(dir, "c16-oracle")
+	defer o.Close()
+	r := hx.NewRand(seed)
+	n, bad := 0, 0
+	check := func(v int32) {
+		n++
+		defer func() {
+			if rec := recover(); rec != nil {
+				bad++
+				o.Emit(fmt.Sprint(v), fmt.Sprintf("counterexample n=%d panic=%v", v, rec))
+			}
+		}()
+		var buf [4]byte
+		binary.LittleEndian.PutUint32(buf[:], uint32(v))
+		b := bytes.BytesFromLowBits(v)
+		j := bytes.I32FromBytes(int8(buf[0]), int8(buf[1]), int8(buf[2]), int8(buf[3]))
+		if b[0] != int8(buf[0]) || b[1] != int8(buf[1]) || b[2] != int8(buf[2]) || b[3] != int8(buf[3]) || j != v ||
+			bytes.I32FromBytes(b[0], b[1], b[2], b[3]) != v {
+			if bad < 20 {
+				o.Emit(fmt.Sprint(v), fmt.Sprintf("counterexample n=%d split=%v join_of_le_bytes=%d", v, b, j))
+			}
+			bad++
+		}
+	}
+	for i := 0; i < 32; i++ {
+		check(int32(1) << uint(i))
+		check(^(int32(1) << uint(i)))
+		for b := 0; b < 256; b++ {
+			check(int32(uint32(b) << uint(i&^7)))
+		}
+	}
+	for _, v := range hx.Lattice {
+		check(v)
+	}
+	for i := 0; i < 1<<21; i++ {
+		check(int32(r.Uint32()))
+	}
+	o.Emit("summary", fmt.Sprintf("summary checked=%d failed=%d", n, bad))
 }
 
 func c16Case(o *hx.Out, n int32) {
